@@ -202,24 +202,24 @@ impl Ins
 			Ins::Branch(c, _) =>
 			{
 				let tgt = u32::try_from(v).ok()?;
-				let off = tgt as i64 - addr.wrapping_add(4) as i64;
+				let off = tgt as i64 - (addr as i64 + 4); // not wrapped (fix F25)
 				Instruction::B{cond: c.unwrap_or(Condition::Always), off: i32::try_from(off).ok()?}
 			},
 			Ins::Bl(_) =>
 			{
 				let tgt = u32::try_from(v).ok()?;
-				Instruction::Bl{off: i32::try_from(tgt as i64 - addr.wrapping_add(4) as i64).ok()?}
+				Instruction::Bl{off: i32::try_from(tgt as i64 - (addr as i64 + 4)).ok()?}
 			},
 			Ins::Adr(d, _) =>
 			{
 				let tgt = u32::try_from(v).ok()?;
-				let off = tgt as i64 - (addr & !3).wrapping_add(4) as i64;
+				let off = tgt as i64 - ((addr & !3) as i64 + 4);
 				Instruction::Adr{dst: reg(*d), off: u16::try_from(off).ok()?}
 			},
 			Ins::LdrLit(d, _) =>
 			{
 				let tgt = u32::try_from(v).ok()?;
-				let off = tgt as i64 - (addr & !3).wrapping_add(4) as i64;
+				let off = tgt as i64 - ((addr & !3) as i64 + 4);
 				if off < 0 {return None;}
 				Instruction::Ldr{dst: reg(*d), addr: Register::PC, off: ImmReg::Immediate(i32::try_from(off).ok()?)}
 			},
@@ -1539,6 +1539,28 @@ pub fn run(id: &str, cx: &mut Cx)
 			self_include(cx, &dir, rest.trim().parse().unwrap_or(1));
 			return;
 		}
+		if let Some((abs, proj)) = input.strip_prefix("layout ").and_then(|r| r.split_once(" | "))
+		{
+			// a model/implementation disagreement of the layout correspondence: re-run both sides
+			match Project::from_input(proj)
+			{
+				None => cx.report.oracle_fail(input.clone(), "unrecognised replay input"),
+				Some(p) =>
+				{
+					p.write(&dir);
+					let real = match run_real(&dir)
+					{
+						Err(e) => format!("PANIC {e}"),
+						Ok(o) => if o.close_err.is_none() && o.finalize {format!("ok {}", image_str(&o.image))} else {fail_kind(&o)},
+					};
+					let model = cx.model.ask(&format!("layout run {abs}"));
+					cx.report.case(Some(&real));
+					let agree = if real.starts_with("ok ") || model.starts_with("ok ") {real == model} else {!(real.starts_with("PANIC") ^ (model == "fail PANIC"))};
+					if !agree {cx.report.disagree("model.layout.run", input.clone(), model, real);}
+				},
+			}
+			return;
+		}
 		match Project::from_input(&input)
 		{
 			None => cx.report.oracle_fail(input, "unrecognised replay input"),
@@ -1568,7 +1590,7 @@ pub fn run(id: &str, cx: &mut Cx)
 labels, constants, .du8/16/32 with expressions over forward and backward symbols, .dstr/.dhex/.dfile, .align, literal and PC-relative instructions, \
 .include with .global/.import) rendered with random spacing/comments; oracle = two-pass reference layout computed from the AST; \
 non-trivial = non-empty image; distinct = distinct images".to_owned();
-			let n = if cx.thorough() {200_000} else {12_000};
+			let n = if cx.thorough() {100_000} else {12_000};
 			let mut made = 0;
 			let mut tries = 0;
 			while made < n && tries < n * 4
